@@ -34,6 +34,8 @@ type Pack struct {
 	RecoverFirst []RecoverFirst `json:"recover_first"`
 	Enclosed   []Enclosed       `json:"enclosed"`
 	NonBlockingSends []NonBlockingSends `json:"nonblocking_sends"`
+	DrainingSends    []DrainingSends    `json:"draining_sends"`
+	AtomicSections   []AtomicSections   `json:"atomic_sections"`
 	SafetyRules []string        `json:"safety_rules"` // opt-in safety rules, e.g. "map-key-hashable" (see hashable.go)
 }
 
@@ -252,6 +254,8 @@ func cmdCheck(repo, verifDir, id, tier string) int {
 	effObls = append(effObls, e.recoverFirstObligations(pack.RecoverFirst)...)
 	effObls = append(effObls, e.enclosedObligations(pack.Enclosed)...)
 	effObls = append(effObls, e.nonBlockingSendObligations(pack.NonBlockingSends)...)
+	effObls = append(effObls, e.drainingSendObligations(pack.DrainingSends)...)
+	effObls = append(effObls, e.atomicSectionObligations(pack.AtomicSections)...)
 	all = append(all, effObls...)
 	if len(effObls) > 0 {
 		stats.add("ast-scan", 0, true)
